@@ -145,11 +145,11 @@ func VH_C06_TransportAbandoned() {
 	vhRunAll()
 	vhAssert(dials == 2 && len(conns[1].written) > 0 && !doneB, "request-B-is-in-flight-on-connection-2")
 	// the broker's answer to the abandoned request arrives late, while B is still waiting for its own answer
-	close(conns[0].gate)
+	conns[0].release()
 	vhRunAll()
 	vhRunAll()
 	vhAssert(!doneB, "the-late-answer-to-the-abandoned-call-does-not-complete-another-call")
-	close(conns[1].gate)
+	conns[1].release()
 	vhRunAll()
 	vhRunAll()
 	vhAssert(doneB, "call-B-completes")
